@@ -384,6 +384,7 @@ def run(tier: str, seed: int) -> int:
     drv.close()
     from .. import reuse
     reuse.keygen_reuse(res, PROP)
+    reuse.converter_reuse(res, PROP)
     with tempfile.TemporaryDirectory(prefix="verif_c15cli_") as dcli:
         dcl = Driver()
         cli_cases(res, dcl, dcli)
